@@ -54,6 +54,10 @@ def st_case(draw):
     R = logu(-7.5, -3.5)
     if model in ("hertz_para", "sneddon_spher_approx"):
         p = {"E": draw(E), "R": draw(R), "nu": draw(nu)}
+        if model == "hertz_para" and draw(st.integers(0, 9)) == 0:
+            # the bound R >= 0 is inclusive and the documented Hertz formula is defined there (force = baseline);
+            # the sphere series divides by R and is not
+            p["R"] = draw(st.sampled_from([0.0, 1e-300, 1e-200, 1e-100]))
     elif model == "hertz_cone":
         p = {"E": draw(E), "alpha": draw(edge(0.01, 89.9)), "nu": draw(nu)}
     elif model == "hertz_pyr3s":
